@@ -72,6 +72,24 @@ def oracle(case):
         return ({"cls": cname, "clause": "kinds", "method": "list", "exc": type(e).__name__}, "pdf/icdf of a list (array_like, as documented) raised %s: %s" % (type(e).__name__, str(e)[:80]))
     if not (np.array_equal(p_list, p_arr) and np.array_equal(i_list, np.asarray(d.icdf(np.array([0.25, 0.5, 0.75]))))):
         return ({"cls": cname, "clause": "kinds", "method": "list"}, "pdf/icdf differ between list and ndarray arguments")
+    # ---- integer-typed arguments (whole numbers as Python ints, lists of ints, integer ndarrays) == the same values as floats
+    xi = np.unique(np.clip(np.round(x), -50, 50)).astype(int)
+    if cname == "VonMisesDistribution":
+        xi = np.array([-3, -1, 0, 1, 2, 3])
+    xf = xi.astype(float)
+    for m in ("cdf", "pdf"):
+        want = np.asarray(getattr(d, m)(xf), dtype=float)
+        try:
+            got = {"int ndarray": np.asarray(getattr(d, m)(xi), dtype=float),
+                   "list of ints": np.asarray(getattr(d, m)([int(v) for v in xi]), dtype=float),
+                   "Python ints": np.array([float(getattr(d, m)(int(v))) for v in xi]),
+                   "int ndarray, explicit parameters": np.asarray(getattr(base, m)(xi, **th), dtype=float)}
+        except Exception as e:  # noqa
+            return ({"cls": cname, "clause": "kinds", "method": m, "form": "int", "exc": type(e).__name__}, "%s of integer-typed x raised %s: %s" % (m, type(e).__name__, str(e)[:80]))
+        for form, g in got.items():
+            if g.shape != want.shape or not np.allclose(g, want, rtol=1e-14, atol=0, equal_nan=True):
+                return ({"cls": cname, "clause": "kinds", "method": m, "form": "int"},
+                        "%s(%s).%s(x) with x = %r as %s gives %r, as floats %r" % (cname, th, m, xi.tolist(), form, g.tolist(), want.tolist()))
     # ---- documented formula
     doc = D.doc_cdf(cname, th, x)
     if doc is not None and not np.allclose(c_arr, doc, **tol):
